@@ -15,12 +15,14 @@ use std::sync::mpsc;
 
 pub const HEADER: &str = "From BW Require Import SpecRun.";
 
-const TOKENS: [&str; 64] = [
+const TOKENS: [&str; 71] = [
     "//", "/*", "*/", "#", "--", "<!--", "-->", "[//]: #", "[//]:", "(", ")", "\"", "'", "=begin", "=end", "///", "//!", "#!", "/**", "*",
     "<block", "</block>", "<block>", "<block name=\"x\">", "name=", "\"x", ">", "<", "/", "=", "<block keep-sorted>", "<block line-count=\"<1\">",
     "<block keep-unique severity='hint'>", "</ block >", "<block\n", "affects=\":x\"",
     "\n", "\n", "\n", "\r\n", "\t", " ", " ", "\u{a0}", "\u{301}", "\u{200b}", "🙂", "é", "日本", "\\", "`", "```", "${", "}", "{", "[", "]", ";",
     "a", "b1", "fn f() {}", "x = 1", "<?php", "?>",
+    // whole link reference definitions (Markdown comments) with lone or odd title delimiters
+    "\n[//]: don't-edit\n", "\n[//]: a\"b\n", "\n[//]: # \"\n", "\n[//]: # (x\n", "\n[//]: # 'x' y\n", "\n[//]: #\n'\n", "\n\n[//]: # )(\n",
 ];
 
 fn soup(rng: &mut Rng) -> String {
